@@ -6,7 +6,10 @@ use std::sync::{Arc, Mutex};
 use better_any::{Tid, TidAble};
 use mahf::{
     component::ExecResult,
+    conditions::EveryN,
     configuration::ConfigurationBuilder,
+    lens::ValueOf,
+    logging::{LogConfig, Logger},
     state::{common::Iterations, StateReq},
     Component, Condition, Configuration, CustomState, State,
 };
@@ -42,6 +45,107 @@ impl std::ops::Deref for U {
     type Target = u32;
     fn deref(&self) -> &u32 {
         &self.0
+    }
+}
+
+#[derive(Tid)]
+pub struct Missing(pub u32);
+impl CustomState<'_> for Missing {}
+impl std::ops::Deref for Missing {
+    type Target = u32;
+    fn deref(&self) -> &u32 {
+        &self.0
+    }
+}
+
+/// Log triggers that leave no trace in the event stream: constant, or replaying a fixed script.
+#[derive(Clone, Serialize)]
+pub struct TrigConst(bool);
+impl Condition<P> for TrigConst {
+    fn evaluate(&self, _: &P, _: &mut State<P>) -> ExecResult<bool> {
+        Ok(self.0)
+    }
+}
+#[derive(Clone, Serialize)]
+pub struct TrigScripted {
+    #[serde(skip)]
+    pos: Arc<Mutex<usize>>,
+}
+const TRIG_SCRIPT: [bool; 5] = [true, false, true, true, false];
+impl Condition<P> for TrigScripted {
+    fn evaluate(&self, _: &P, _: &mut State<P>) -> ExecResult<bool> {
+        let mut p = self.pos.lock().unwrap();
+        let b = TRIG_SCRIPT.get(*p).copied().unwrap_or(false);
+        *p += 1;
+        Ok(b)
+    }
+}
+
+fn short_name(n: &str) -> &'static str {
+    if n.ends_with("::K0") {
+        "K0"
+    } else if n.ends_with("::U") {
+        "U"
+    } else if n.ends_with("Iterations") {
+        "IT"
+    } else if n.ends_with("::Missing") {
+        "MISSING"
+    } else {
+        "UNKNOWN"
+    }
+}
+
+fn val(v: &Value) -> i64 {
+    v.as_i64().unwrap_or(NOVAL)
+}
+
+/// the log as mahf serialises it directly: ordered steps of {name, value}
+fn log_direct(state: &State<P>) -> Value {
+    let v = serde_json::to_value(&*state.log()).unwrap_or(json!([]));
+    Value::Array(
+        v.as_array().cloned().unwrap_or_default().iter()
+            .map(|step| Value::Array(step.as_array().cloned().unwrap_or_default().iter()
+                .map(|e| json!({"n": short_name(e["name"].as_str().unwrap_or("")), "v": val(&e["value"])})).collect()))
+            .collect(),
+    )
+}
+
+/// decodes a compressed export {names: [..], entries: [{key: value}]} into steps sorted by name
+fn decode_compressed(v: &Value) -> Value {
+    let names: Vec<&str> = v["names"].as_array().map(|a| a.iter().map(|x| x.as_str().unwrap_or("")).collect()).unwrap_or_default();
+    let mut steps = Vec::new();
+    for m in v["entries"].as_array().cloned().unwrap_or_default() {
+        let mut es: Vec<(&'static str, i64)> = Vec::new();
+        if let Some(o) = m.as_object() {
+            for (k, x) in o {
+                let idx: usize = k.parse().unwrap_or(usize::MAX);
+                es.push((short_name(names.get(idx).copied().unwrap_or("")), val(x)));
+            }
+        }
+        es.sort();
+        steps.push(Value::Array(es.into_iter().map(|(n, v)| json!({"n": n, "v": v})).collect()));
+    }
+    Value::Array(steps)
+}
+
+fn cbor_to_json(v: &ciborium::value::Value) -> Value {
+    use ciborium::value::Value as C;
+    match v {
+        C::Integer(i) => json!(i128::from(*i) as i64),
+        C::Text(s) => json!(s),
+        C::Null => Value::Null,
+        C::Bool(b) => json!(b),
+        C::Float(f) => json!(f),
+        C::Array(a) => Value::Array(a.iter().map(cbor_to_json).collect()),
+        C::Map(m) => Value::Object(m.iter().map(|(k, x)| {
+            let key = match k {
+                C::Text(s) => s.clone(),
+                C::Integer(i) => (i128::from(*i)).to_string(),
+                other => format!("{other:?}"),
+            };
+            (key, cbor_to_json(x))
+        }).collect()),
+        other => json!(format!("{other:?}")),
     }
 }
 
@@ -185,6 +289,7 @@ pub fn build_body(mut b: ConfigurationBuilder<P>, body: &Value, path: &[u32], ct
         let p = child(path, &[i as u32 + 1]);
         let cond = || -> Box<dyn Condition<P>> { Box::new(VCond { path: child(&p, &[0]), ctx: ctx.clone() }) };
         b = match st["k"].as_str().unwrap() {
+            "leaf" if st["v"].as_str() == Some("log") => b.do_(Logger::new()),
             "leaf" => b.do_(Box::new(VLeaf { path: p.clone(), variant: st["v"].as_str().unwrap().to_string(), ctx: ctx.clone() })),
             "while" => b.while_(cond(), |bb| build_body(bb, &st["b"], &child(&p, &[1]), ctx)),
             "if" => b.if_(cond(), |bb| build_body(bb, &st["b"], &child(&p, &[1]), ctx)),
@@ -200,6 +305,49 @@ pub fn build_body(mut b: ConfigurationBuilder<P>, body: &Value, path: &[u32], ct
     b
 }
 
+/// Reads the program back from the name-preserving serialisation of the built configuration:
+/// possible only if the serialisation names every component with its parameters and nesting.
+fn skeleton(v: &Value) -> Value {
+    match v {
+        Value::Array(a) => Value::Array(a.iter().map(skeleton_stmt).collect()),
+        other => json!([format!("not a block: {other}")]),
+    }
+}
+fn skeleton_stmt(v: &Value) -> Value {
+    let e = json!([]);
+    match v {
+        Value::Array(_) => json!({"k": "block", "v": "-", "b": skeleton(v), "e": e}),
+        Value::Object(m) => match m.get("$").and_then(|x| x.as_str()).unwrap_or("?") {
+            "VLeaf" => json!({"k": "leaf", "v": m["variant"], "b": e, "e": []}),
+            "Logger" => json!({"k": "leaf", "v": "log", "b": e, "e": []}),
+            "Loop" => json!({"k": "while", "v": "-", "b": skeleton(&m["do"]), "e": e}),
+            "Branch" if m["else_body"] == json!("None") => json!({"k": "if", "v": "-", "b": skeleton(&m["if_body"]), "e": e}),
+            "Branch" => json!({"k": "ifelse", "v": "-", "b": skeleton(&m["if_body"]), "e": skeleton(&m["else_body"])}),
+            "Scope" => json!({"k": "scope", "v": "-", "b": skeleton(&m["body"]), "e": e}),
+            other => json!({"k": "unknown", "v": other, "b": e, "e": []}),
+        },
+        other => json!({"k": "unknown", "v": other.to_string(), "b": e, "e": []}),
+    }
+}
+
+/// (skeleton, to_ron succeeded, a clone serialises identically)
+fn serialisation_facts(config: &Configuration<P>, run: u64) -> (Value, i64, i64) {
+    let named = crate::named::to_named(config.heuristic());
+    let tmp = std::path::PathBuf::from(TMPDIR.lock().unwrap().clone()).join(format!("mahf-verif-cfg-{}-{}", std::process::id(), run));
+    let (p1, p2) = (tmp.with_extension("ron"), tmp.with_extension("clone.ron"));
+    let ron1 = config.to_ron(&p1).ok().and_then(|_| std::fs::read_to_string(&p1).ok());
+    let cloned = config.clone();
+    let ron2 = cloned.to_ron(&p2).ok().and_then(|_| std::fs::read_to_string(&p2).ok());
+    let _ = std::fs::remove_file(&p1);
+    let _ = std::fs::remove_file(&p2);
+    let named2 = crate::named::to_named(cloned.heuristic());
+    let clone_same = match (&named, &named2, &ron1, &ron2) {
+        (Ok(a), Ok(b), Some(r1), Some(r2)) => (a == b && r1 == r2) as i64,
+        _ => 0,
+    };
+    (named.map(|v| skeleton(&v)).unwrap_or(json!("unserialisable")), ron1.is_some() as i64, clone_same)
+}
+
 fn run_case(out: &mut Out, run: u64, case: &Value) {
     let script: Vec<u8> = case["script"].as_array().unwrap().iter().map(|x| x.as_u64().unwrap() as u8).collect();
     let fault = (case["fault"][0].as_str().unwrap().to_string(), case["fault"][1].as_u64().unwrap() as u32);
@@ -208,8 +356,37 @@ fn run_case(out: &mut Out, run: u64, case: &Value) {
     let problem = TagProblem::identity(4);
     let mut state: State<P> = State::new();
     state.insert(U(7));
+    state.insert(mahf::logging::Log::new());
+    let rules = case.get("rules").cloned().unwrap_or(json!([]));
+    let rootit = case.get("rootit").and_then(|x| x.as_i64()).unwrap_or(NOVAL);
+    if rootit != NOVAL {
+        state.insert(Iterations(rootit as u32));
+    }
+    if !rules.as_array().unwrap().is_empty() {
+        let mut cfg = LogConfig::<P>::new();
+        for r in rules.as_array().unwrap() {
+            let trigger: Box<dyn Condition<P>> = match r["tk"].as_str().unwrap() {
+                "always" => Box::new(TrigConst(true)),
+                "never" => Box::new(TrigConst(false)),
+                "every2" => EveryN::iterations(2),
+                "scripted" => Box::new(TrigScripted { pos: Arc::new(Mutex::new(0)) }),
+                other => panic!("unknown trigger kind {other}"),
+            };
+            let extractor = match r["src"].as_str().unwrap() {
+                "K0" => ValueOf::<K0>::entry::<P>(),
+                "U" => ValueOf::<U>::entry::<P>(),
+                "IT" => ValueOf::<Iterations>::entry::<P>(),
+                "MISSING" => ValueOf::<Missing>::entry::<P>(),
+                other => panic!("unknown source {other}"),
+            };
+            cfg.with(trigger, extractor);
+        }
+        state.insert(cfg);
+    }
+    let (skel, ron_ok, clone_same) = serialisation_facts(&config, run);
     let result = caught(|| config.run(&problem, &mut state));
-    out.emit(&json!({"run": run, "ev": "case", "prog": case["prog"], "script": case["script"], "fault": case["fault"]}));
+    out.emit(&json!({"run": run, "ev": "case", "prog": case["prog"], "script": case["script"], "fault": case["fault"],
+                     "rules": rules, "rootit": rootit, "skel": skel, "ron_ok": ron_ok, "clone_same": clone_same}));
     let c = ctx.lock().unwrap();
     for e in &c.events {
         out.emit(&json!({"run": run, "ev": "e", "e": e}));
@@ -228,11 +405,35 @@ fn run_case(out: &mut Out, run: u64, case: &Value) {
         depth += 1;
     }
     let scopes = project_scopes(&state);
-    out.emit(&json!({"run": run, "ev": "end",
+    // the log three ways: serialised directly (ordered), and decoded from the JSON and the CBOR export
+    let (log, logj, logc) = if state.contains::<mahf::logging::Log>() {
+        let tmp = std::path::PathBuf::from(TMPDIR.lock().unwrap().clone()).join(format!("mahf-verif-log-{}-{}", std::process::id(), run));
+        let jpath = tmp.with_extension("json");
+        let cpath = tmp.with_extension("cbor");
+        let j = match state.log().to_json(&jpath) {
+            Ok(()) => std::fs::read_to_string(&jpath).ok().and_then(|s| serde_json::from_str::<Value>(&s).ok()).map(|v| decode_compressed(&v)),
+            Err(_) => None,
+        };
+        let c = match state.log().to_cbor(&cpath) {
+            Ok(()) => std::fs::File::open(&cpath).ok().and_then(|f| ciborium::de::from_reader::<ciborium::value::Value, _>(f).ok())
+                .map(|v| decode_compressed(&cbor_to_json(&v))),
+            Err(_) => None,
+        };
+        let _ = std::fs::remove_file(&jpath);
+        let _ = std::fs::remove_file(&cpath);
+        (log_direct(&state), j.unwrap_or(json!("export_failed")), c.unwrap_or(json!("export_failed")))
+    } else {
+        (json!("log_missing"), json!("log_missing"), json!("log_missing"))
+    };
+    out.emit(&json!({"run": run, "ev": "end", "log": log, "logj": logj, "logc": logc,
         "end": {"result": res, "fph": fph, "fp": fp, "depth": depth, "root": scopes[0], "left": c.script.len() - c.cursor}}));
 }
 
 fn random_body(rng: &mut impl Rng, budget: &mut i32, depth: u32) -> Value {
+    random_body_with(rng, budget, depth, &["plain", "ins0", "req0", "ins0"])
+}
+
+fn random_body_with(rng: &mut impl Rng, budget: &mut i32, depth: u32, variants: &[&str]) -> Value {
     let mut body = Vec::new();
     let n = rng.gen_range(0..=4);
     for _ in 0..n {
@@ -243,19 +444,24 @@ fn random_body(rng: &mut impl Rng, budget: &mut i32, depth: u32) -> Value {
         let kind = if depth >= 4 { 0 } else { rng.gen_range(0..10) };
         body.push(match kind {
             0..=3 => {
-                let v = ["plain", "ins0", "req0", "ins0"][rng.gen_range(0..4)];
+                let v = variants[rng.gen_range(0..variants.len())];
                 json!({"k": "leaf", "v": v, "b": [], "e": []})
             }
-            4..=5 => json!({"k": "while", "v": "-", "b": random_body(rng, budget, depth + 1), "e": []}),
-            6 => json!({"k": "if", "v": "-", "b": random_body(rng, budget, depth + 1), "e": []}),
-            7 => json!({"k": "ifelse", "v": "-", "b": random_body(rng, budget, depth + 1), "e": random_body(rng, budget, depth + 1)}),
-            _ => json!({"k": "scope", "v": "-", "b": random_body(rng, budget, depth + 1), "e": []}),
+            4..=5 => json!({"k": "while", "v": "-", "b": random_body_with(rng, budget, depth + 1, variants), "e": []}),
+            6 => json!({"k": "if", "v": "-", "b": random_body_with(rng, budget, depth + 1, variants), "e": []}),
+            7 => json!({"k": "ifelse", "v": "-", "b": random_body_with(rng, budget, depth + 1, variants), "e": random_body_with(rng, budget, depth + 1, variants)}),
+            _ => json!({"k": "scope", "v": "-", "b": random_body_with(rng, budget, depth + 1, variants), "e": []}),
         });
     }
     Value::Array(body)
 }
 
+static TMPDIR: Mutex<String> = Mutex::new(String::new());
+
 pub fn main(args: &Args) -> usize {
+    // scratch files of the log exports go next to the output trace (never under /tmp)
+    let outp = args.str("out");
+    *TMPDIR.lock().unwrap() = std::path::Path::new(&outp).parent().map(|p| p.to_string_lossy().to_string()).unwrap_or(".".into());
     let mut out = Out::create(&args.str("out"));
     match args.mode.as_str() {
         // cases exported by TLC: {"run": k, "prog": .., "script": .., "fault": ..}
@@ -267,9 +473,26 @@ pub fn main(args: &Args) -> usize {
         "random" => {
             let runs = args.num("n", 300);
             let max_stmts = args.num("stmts", 25) as i32;
+            let logging = args.num("logging", 0) == 1;
             for run in 0..runs {
                 let mut rng = rng(args.seed(), run);
                 let mut budget = rng.gen_range(6..=max_stmts);
+                if logging {
+                    // random rule sets and logger placements; the caller's state holds a pass counter
+                    let prog = random_body_with(&mut rng, &mut budget, 0, &["ins0", "log", "log", "plain"]);
+                    let slen = rng.gen_range(0..=8);
+                    let script: Vec<u8> = (0..slen).map(|_| rng.gen_bool(0.6) as u8).collect();
+                    let nrules = rng.gen_range(0..=4);
+                    let rules: Vec<Value> = (0..nrules)
+                        .map(|_| {
+                            let tk = ["always", "never", "every2", "scripted"][rng.gen_range(0..4)];
+                            let src = ["K0", "U", "IT", "MISSING"][rng.gen_range(0..4)];
+                            json!({"tk": tk, "src": src})
+                        })
+                        .collect();
+                    run_case(&mut out, run, &json!({"prog": prog, "script": script, "fault": ["none", 0], "rules": rules, "rootit": 0}));
+                    continue;
+                }
                 let prog = random_body(&mut rng, &mut budget, 0);
                 let slen = rng.gen_range(0..=8);
                 // scripts biased toward true so that loops make several passes, but always end in a run of falses
